@@ -33,7 +33,7 @@ from symx.harness import Harness
 from symx import core
 from symx.core import sym_and, sym_or, sym_not, any_sym
 from ref import csem
-from props.C27 import run_batch, batches, lit, SHIFT_COUNT_MAX, optags, tractable
+from props.C27 import run_batch, batches, lit, SHIFT_COUNT_MAX, optags, tractable, has_defined_point
 
 PROPERTY = "C26"
 LEVEL = "model_checking"
@@ -114,6 +114,22 @@ class PPIfHarness(Harness):
         if self.mode == "c26":
             mk.assume(E.defined)
         return inp
+
+    def literal_ranges(self):
+        out = []
+        for i, s in sorted(self.lits):
+            hi = DM.hi(csem.SUFFIX_TYPE[s])
+            if i in self.shiftlits:
+                hi = min(hi, SHIFT_COUNT_MAX)
+            if i in self.mullits:
+                hi = min(hi, MUL_RIGHT_MAX)
+            out.append((0, hi))
+        return out
+
+    def premise(self, lv):
+        E = csem.Eval(DM, lv)
+        E.ev(self.expr)
+        return bool(E.defined)
 
     def run(self, inp):
         from ppci.lang.c import CPreProcessor, COptions
@@ -245,8 +261,11 @@ def sampled_templates(rnd, n):
         e, k = _rand_tree(rnd, 2, 0)
         if e[0] in ("lit", "neg") or not tractable(e):
             continue
-        o = rnd.choice(observers(e, k, True))
-        T.append((rnd.choice(["if", "if", "elif"]), o))
+        o = csem.renumber(rnd.choice(observers(e, k, True)))
+        spec = (rnd.choice(["if", "if", "elif"]), o)
+        if not has_defined_point(PPIfHarness(*spec), rnd):
+            continue
+        T.append(spec)
     return T
 
 
